@@ -77,3 +77,106 @@ def register(R):
     R.tasks.append(Bounded('bounded:C09-reference-graphs-under-watchdog', ('C09',), run_c09,
                            'configs of <= 4 top-level entries, every reference graph shape over them; 8 s watchdog per build; quick 46 / thorough 406 graphs',
                            stands_in_for='XRefNode.on_evaluate_impl loop termination (replayable witness for the termination obligation), EvalContext.get_node path parsing'))
+
+
+# ------------------------------------------------------------------------------------------------ C16
+def run_c16(repo, tier, seed, only=None):
+    import copy as _copy
+    ay = load(repo)
+    rng = random.Random(16000 + seed)
+    R = Runner('C16')
+    # recorded finding (KNOWN_FINDINGS.txt), re-confirmed on every run
+    kf = ['{l: [[1], [2], [3]]}', '{l: !merge {0: !append [9]}}']
+    got = build(ay, kf)
+    R.cases += 1
+    if got != ('ok', {'l': [[1, 9], [2], [3]]}):
+        R.fail('bounded:C16.known:append-to-an-element-of-a-list', f'docs={kf}: expected l: [[1, 9], [2], [3]], got {got!r}', {'family': 'c16', 'docs': kf})
+    for _ in range(n_cases(tier, 250, 4000)):
+        g = G.Gen(rng, tags=(), leaves=[0, 1, 2, 'v'])
+        base = g.map(3, top=True)
+        bp = G.plain(base)
+        # candidate target paths: through mappings only (a path through a list index: see the recorded finding)
+        paths = []
+
+        def walk(d, pre):
+            if isinstance(d, dict):
+                for k, v in d.items():
+                    paths.append(pre + (k,))
+                    walk(v, pre + (k,))
+        walk(bp, ())
+        op = rng.choice(['append', 'extend', 'prev'])
+        tgt = rng.choice(paths) if paths and rng.random() < 0.8 else (rng.choice(G.KEYS), 'zz')
+        items = [rng.choice([5, 6, 'w']) for _ in range(rng.randint(0, 2))]
+        exp = _copy.deepcopy(bp)
+
+        def get(d, p):
+            for x in p:
+                if not isinstance(d, dict) or x not in d:
+                    return KeyError
+                d = d[x]
+            return d
+        cur = get(bp, tgt)
+        if op in ('append', 'extend'):
+            node = G.sq([G.leaf(x) for x in items], op)
+            doc = node
+            for k in reversed(tgt):
+                doc = G.wrap(doc, k)
+            texts = [G.render(base), G.render(doc)]
+            if isinstance(cur, list):
+                new = cur + items
+            elif op == 'extend':
+                new = list(items)
+            else:
+                new = None
+            if new is None:
+                expected = ('err', 'PremergeError')
+            else:
+                # the operator's result replaces/creates the value at the path; parents are created like any new key
+                d = exp
+                ok = True
+                for x in tgt[:-1]:
+                    if x in d and isinstance(d[x], list):
+                        ok = False      # a mapping merged onto a list addresses indices (C02): not this family
+                        break
+                    if x not in d or not isinstance(d[x], dict):
+                        d[x] = {}
+                    d = d[x]
+                if not ok:
+                    continue
+                d[tgt[-1]] = new
+                expected = ('ok', exp)
+        else:
+            q = rng.choice(['zq', rng.choice(G.KEYS)])
+            texts = [G.render(base), '{%s: !prev %s}' % (q, '.'.join(str(x) for x in tgt))]
+            if cur is KeyError or q == tgt[0]:
+                expected = None if q == tgt[0] else ('err', 'PremergeError')
+            else:
+                d = exp
+                for x in tgt[:-1]:
+                    d = d[x]
+                del d[tgt[-1]]
+                if q in exp and isinstance(exp[q], (dict, list)):
+                    expected = None      # the moved subtree merges with an existing container: covered by the merge oracles
+                else:
+                    exp[q] = cur
+                    expected = ('ok', exp)
+        if expected is None:
+            continue
+        got = build(ay, texts)
+        R.case(tuple(texts), {'docs': texts, 'expected': repr(expected)[:200]})
+        from .b_merge import unordered_eq
+        ok = got[0] == expected[0] and (got[0] == 'err' and got[1] == expected[1] or got[0] == 'ok' and unordered_eq(got[1], expected[1]))
+        if not ok:
+            R.fail('bounded:C16.append-extend-prev-move-and-grow-without-loss', f'docs={texts} expected={expected!r} got={got!r}'[:700], {'family': 'c16', 'docs': texts})
+    return R.result()
+
+
+def register2(R):
+    R.tasks.append(Bounded('bounded:C16-premerge-operators', ('C16',), run_c16,
+                           'base documents of depth<=3, width<=3; one operator per second document at any mapping path (existing or not); quick 250 / thorough 4000 cases',
+                           stands_in_for='ComposedNode.remove_node / get_node / _get_node (path walking with callbacks, assumed by the operator contracts), map_nodes premerge traversal'))
+
+
+def _reg_all(R):
+    register(R)
+    register2(R)
